@@ -276,11 +276,19 @@ def lemmas():
         if name != "FileSystemEvent" and node.decorator_list:
             bad.append(f"{name} is re-decorated")
     out.append(Obligation("lemma[no event class overrides equality or hashing]", "lemma", [], z3.BoolVal(not bad), "", "event equality"))
+    # the observer's queue IS the verified SkipRepeatsQueue: EventQueue adds no method of its own (its items are (event, watch)
+    # tuples, compared as tuples: the same event for two watches is two different items)
+    api = source.module("watchdog/observers/api.py")
+    eq = api.classes.get("EventQueue")
+    QUEUE_METHODS = {"put", "get", "put_nowait", "get_nowait", "_put", "_get", "_init", "_qsize", "task_done", "join", "qsize", "empty", "full"}
+    own = [st.name for st in (eq.body if eq is not None else []) if isinstance(st, (ast.FunctionDef, ast.AsyncFunctionDef)) and st.name in QUEUE_METHODS]
+    bases = [getattr(b, "id", None) or getattr(getattr(b, "value", None), "id", None) for b in (eq.bases if eq is not None else [])]
+    out.append(Obligation("lemma[EventQueue is SkipRepeatsQueue: it overrides none of the queue operations]", "lemma", [], z3.BoolVal(eq is not None and not own and bases == ["SkipRepeatsQueue"]), ",".join(own), "EventQueue"))
     return out
 
 
 EXPECTED_CLAUSES = ["put.post[dropped only if equal to the item enqueued immediately before it", "put.post[the item itself is handed to Queue.put", "_put.post[I:last-item-is-the-last-enqueued-and-still-waiting]",
-                    "_get.post[FIFO", "_get.post[last item forgotten iff", "_init.post[nothing enqueued", "lemma[all five fields"]
+                    "_get.post[FIFO", "_get.post[last item forgotten iff", "_init.post[nothing enqueued", "lemma[all five fields", "lemma[EventQueue is SkipRepeatsQueue"]
 CANARIES = [
     {"name": "_get never clears _last_item", "file": FILE, "fn": "SkipRepeatsQueue._get", "find": "        if item is self._last_item:\n            self._last_item = None\n", "replace": ""},
     {"name": "_put does not record _last_item", "file": FILE, "fn": "SkipRepeatsQueue._put", "find": "        self._last_item = item\n", "replace": "        pass\n"},
